@@ -132,6 +132,7 @@ def run(F, rep):
     # ------------------------------------------------------------ TP4 (needs only the two entry points, whatever helpers they use)
     if b2t and t2b and getattr(F, "cfg", "dev") == "dev":
         tp4_rule(F, rep, "C12-TP4")
+    io_rule(F, rep, "C12-IO")
     if not rep.floor("C12-ANCHOR", sum(1 for x in (b2t, t2b, pk, up) if x), 4, "tuple packing functions"):
         return
     # ------------------------------------------------------------ TP1
@@ -444,3 +445,54 @@ def tp4_rule(F, rep, rule, want=("rt", "fmt")):
                detail=("undecidable construct: %s" % undec) if undec else ("%d strings evaluated" % n if not fmt_bad else "%d of %d strings differ, e.g. %s" % (len(fmt_bad), n, "; ".join(fmt_bad[:3]))),
                site=site, key="%s | format on the finite domain" % rule)
     rep.stat("tuple_codec_strings_evaluated", n)
+
+
+def io_rule(F, rep, rule):
+    """A single `Read::read` may return fewer bytes than the buffer holds (a streaming decoder returns what one input
+    chunk produced).  Code that fills a buffer of known size must use read_exact / read_to_end / decode_all, or call
+    read in a loop that ends when it returns 0.  Every direct `Read::read` call in the live code of ragc-core,
+    ragc-common and the CLI is checked; the all-or-error calls are counted as the positive control."""
+    G = cgmod.CallGraph(F)
+    live = pipeline.live_scope(F, G)
+    nfull = nbare = 0
+    for k in sorted(live):
+        f = F.funcs[k]
+        if f.crate not in ("ragc_core", "ragc_common", "ragc") or f.kind == "promoted" or f.d.get("test"):
+            continue
+        g = None
+        ex = None
+        for bi, t in f.calls():
+            if t.get("indirect"):
+                continue
+            decl = t.get("decl", "")
+            if re.search(r"io::Read::(read_exact|read_to_end|read_to_string)$|io::BufRead::(read_until|read_line)$", decl) or t["callee"].endswith("zstd::stream::functions::decode_all") or t["callee"].endswith("zstd::decode_all"):
+                nfull += 1
+                continue
+            if not decl.endswith("io::Read::read"):
+                continue
+            nbare += 1
+            g = g or cfg_of(f)
+            ex = ex or Exprs(f)
+            heads = g.in_loop(bi)
+            ok = False
+            why = "not inside a loop: the bytes after the first chunk are never read"
+            if heads:
+                body = set()
+                for h, bd in g.loops():
+                    if bi in bd:
+                        body |= set(bd)
+                zero_test = False
+                for b2 in body:
+                    t2 = f.blocks[b2]["term"]
+                    if t2["k"] == "switch":
+                        ce = ex.operand(t2["discr"])
+                        if isinstance(ce, tuple) and ce[0] == "bin" and ce[1] in ("Eq", "Ne", "Lt", "Le") and ("const", 0) in (ce[2], ce[3]) and \
+                                contains(ce, lambda x: isinstance(x, tuple) and x[0] == "call" and x[1] == t["callee"]):
+                            zero_test = True
+                ok = zero_test
+                why = "inside a loop that tests the returned count against 0" if ok else "inside a loop, but the returned count is never compared with 0"
+            rep.ob(rule, "%s: a direct Read::read is repeated until it returns 0 (a single read may be short)" % k.split("::", 1)[-1], ok, detail=why,
+                   site=site_of(f, t), key="%s | %s | bare read" % (rule, k))
+    rep.ob(rule, "buffers are filled with all-or-error reads (read_exact / read_to_end / read_until / decode_all): %d call sites, %d direct read() calls" % (nfull, nbare),
+           True, how="trivial", key="%s | summary" % rule)
+    rep.floor(rule, nfull, 5, "all-or-error read call sites in the live code (positive control of the matcher)")
